@@ -156,6 +156,40 @@ func ruleOrderOperands(c *Ctx, r *R) {
 				okAll = false
 			}
 		}
+		if spec[0] == "callee" {
+			// 11.2.2 / 11.2.3: the arguments are evaluated (step 3) before the value is tested for being callable
+			// (steps 4-5): no test that leads to a throw may come before an argument evaluation
+			early := ""
+			for _, b := range fn.Blocks {
+				for _, ins := range b.Instrs {
+					pn, ok := ins.(*ssa.Panic)
+					if !ok {
+						continue
+					}
+					if tn, _ := panicOperandType(pn); tn != "*exception" {
+						continue
+					}
+					// the test that decides this throw: the nearest dominating block that ends in a branch
+					var test *ssa.BasicBlock
+					for d := b; d != nil; d = d.Idom() {
+						if _, isIf := d.Instrs[len(d.Instrs)-1].(*ssa.If); isIf && d != b {
+							test = d
+							break
+						}
+					}
+					if test == nil {
+						continue
+					}
+					for _, s2 := range second {
+						if reaches(test, s2.Block(), map[*ssa.BasicBlock]bool{}) && early == "" {
+							early = c.Pos(instrPos(pn))
+						}
+					}
+				}
+			}
+			r.check(early == "", key+":throw-after-arguments", site, "no TypeError is decided before the arguments are evaluated",
+				fmt.Sprintf("%s decides a TypeError (at %s) before it has evaluated the arguments: ES5 %s evaluates the argument list (step 3) before it tests whether the value is callable (steps 4-5), so `o.nope(f())` must call f and `o.nope(undeclared)` must raise a ReferenceError, not a TypeError", ssaFuncName(fn), early, spec[2]))
+		}
 		r.check(okAll, key, site, fmt.Sprintf("GetValue(%s) precedes the evaluation of %s", spec[0], spec[1]),
 			fmt.Sprintf("%s evaluates node.%s before it has taken the value of node.%s (ES5 %s: GetValue of the first operand comes first): side effects of the second operand change what the first one yields", ssaFuncName(fn), spec[1], spec[0], spec[2]))
 	}
